@@ -45,7 +45,9 @@ import ast
 from ..model import dotted, unparse
 from ..selftest import V
 from . import c01
+from ..cfg import ALL
 from ._util_A import (
+    _node_defs,
     calls_named,
     branch_succ,
     builtin_call,
@@ -167,6 +169,35 @@ def _under_int(f, x) -> bool:
 # --------------------------------------------------------------------------- R3
 
 
+def _through_temp(f, e, nid, depth: int = 4):
+    """The expression a plain local `e` stands for when it is evaluated at CFG node `nid`: the value of its single
+    reaching definition (a plain, non-unpacking assignment or a walrus), provided that no local read by that value is
+    re-bound on a path from the definition to `nid` (the value is still what re-evaluating the expression at `nid`
+    would give, as far as local bindings are concerned).  Anything else (several definitions, parameter, loop
+    variable, stale operand) is returned unchanged, so the caller judges the name itself."""
+    g = f.cfg
+    at = nid  # where the current name is read (the test, then the definition of the previous temporary)
+    while depth > 0 and isinstance(e, ast.Name) and scoped_binding(e) is None:
+        depth -= 1
+        ds = rdefs(f, e.id, at, use=e)
+        if len(ds) != 1 or ds[0].kind not in ("assign", "walrus") or ds[0].index is not None or ds[0].value is None:
+            break
+        d = ds[0]
+        if d.nid is None:
+            break
+        if d.nid != nid:
+            after = g.reach([d.nid], avoid=[d.nid], kinds=ALL)
+            between = {n for n in after if n == nid or nid in g.reach([n], avoid=[d.nid], kinds=ALL)}
+            between.discard(nid)  # a walrus inside the test itself is handled by rdefs(use=)
+            read = {x.id for x in ast.walk(d.value) if isinstance(x, ast.Name)}
+            if any(_node_defs(g.nodes[n], nm) for n in between for nm in read):
+                break
+        e, at = strip_await(d.value), d.nid
+        if isinstance(e, ast.NamedExpr):
+            e = e.value
+    return e
+
+
 def r3(ctx):
     p = ctx.prog
     f = p.func(f"{UT}.get_tag")
@@ -236,6 +267,9 @@ def r3(ctx):
             else:
                 t = tests[0]
                 l, r, op = t.ast.left, t.ast.comparators[0], t.ast.ops[0]
+                # an operand computed into a temporary first (`n = len(tag)` ... `if n > len(output_tag)`) is read
+                # through its single, still valid reaching definition
+                l, r = _through_temp(f, l, t.id), _through_temp(f, r, t.id)
                 ll, lr = builtin_call(f, l, "len"), builtin_call(f, r, "len")
                 if ll is None or lr is None or len(ll.args) != 1 or len(lr.args) != 1:
                     ok, msg = False, f"`{unparse(t.ast)}` does not compare lengths: the deepest tag is not selected"
@@ -570,6 +604,18 @@ VARIANTS = [
       "    for i in range(len(list1)):\n        d = int(list1[i]) - int(list2[i])\n        if d == 0:\n            continue\n        return d", None),
     V("benign: get_tag compares component counts", UFILE, GT, "len(tag) > len(output_tag)", "len(tag.split('.')) > len(output_tag.split('.'))", None),
     V("benign: get_job_step_name via rsplit", UFILE, f"{UT}.get_job_step_name", "PurePosixPath(job_name).parent.as_posix()", "job_name.rsplit('/', 1)[0]", None),
+    # R3: operands of the length test read through temporaries (reaching definition, still valid at the test)
+    V("benign: get_tag length of the examined tag through a temporary (testtemp)", UFILE, GT,
+      "        if len(tag) > len(output_tag):", "        n = len(tag)\n        if n > len(output_tag):", None),
+    V("benign: get_tag both lengths through temporaries, one chained", UFILE, GT,
+      "        if len(tag) > len(output_tag):", "        n = len(tag)\n        cur = len(output_tag)\n        m = cur\n        if m < n:", None),
+    V("get_tag: accumulator length taken once before the loop (stale temporary)", UFILE, GT,
+      "    for tag in [t.tag for t in tokens]:\n        if len(tag) > len(output_tag):",
+      "    n = len(output_tag)\n    for tag in [t.tag for t in tokens]:\n        if len(tag) > n:", "R3"),
+    V("get_tag: temporary holds the length of the last component only", UFILE, GT,
+      "        if len(tag) > len(output_tag):", "        n = len(tag.split('.')[-1])\n        if n > len(output_tag):", "R3"),
+    V("get_tag: temporaries swapped (selects the shortest tag)", UFILE, GT,
+      "        if len(tag) > len(output_tag):", "        n = len(output_tag)\n        if n > len(tag):", "R3"),
     # R4: formulations of the split that cannot be proven to be the inverse of the join are findings (never exit 2)
     V("get_job_step_name: tag stripped by a precompiled regular expression (seeded 3)", UFILE, f"{UT}.get_job_step_name", "return PurePosixPath(job_name).parent.as_posix()",
       "return _JOB_TAG_SUFFIX.sub('', job_name) or posixpath.sep", "R4", control=True,
